@@ -529,9 +529,16 @@ def run(tier, seed):
         use_lb, use_ub = rnd.random() < 0.85, rnd.random() < 0.85
         q = np.array([[rnd.uniform(-4, 4)] for _ in range(d)])
         p = np.array([[rnd.uniform(-2, 2)] for _ in range(d)])
-        flavour = rnd.choice(["base", "composite-own", "composite-blocks", "bayes"])
+        flavour = rnd.choice(["base", "composite-own", "composite-blocks", "bayes", "composite-nested", "bayes-over-composite", "composite-own-lists"])
         L = lb if use_lb else None
         U = ub if use_ub else None
+
+        def blocks(a0, b0):
+            """coordinates a0..b0 as a composite of bounded blocks"""
+            cuts = sorted(rnd.sample(range(a0 + 1, b0), k=min(b0 - a0 - 1, rnd.randint(0, 2)))) if b0 - a0 > 1 else []
+            idx = [a0] + cuts + [b0]
+            return D.CompositeDistribution([D.Normal(np.zeros((b - a, 1)), 1.0, lower_bounds=None if L is None else L[a:b].copy(),
+                                                     upper_bounds=None if U is None else U[a:b].copy()) for a, b in zip(idx[:-1], idx[1:])])
         if flavour == "base":
             dist = D.Normal(np.zeros((d, 1)), 1.0, lower_bounds=L, upper_bounds=U)
         elif flavour == "composite-own":
@@ -546,6 +553,17 @@ def run(tier, seed):
                                       lower_bounds=None if L is None else L[a:b].copy(),
                                       upper_bounds=None if U is None else U[a:b].copy()))
             dist = D.CompositeDistribution(parts)
+        elif flavour == "composite-nested":
+            # a block may be a composite itself: the bounds live two levels down
+            k = rnd.randint(1, d)
+            dist = D.CompositeDistribution([blocks(0, k)] + ([blocks(k, d)] if k < d else []))
+        elif flavour == "bayes-over-composite":
+            # the common layout: a prior assembled from per-parameter blocks, times a likelihood
+            dist = D.BayesRule([blocks(0, d), D.Normal(np.zeros((d, 1)), 2.0)])
+        elif flavour == "composite-own-lists":
+            # the plain list of numbers every elementary distribution accepts as bounds
+            parts = [D.Normal(np.zeros((1, 1)), 1.0) for _ in range(d)]
+            dist = D.CompositeDistribution(parts, lower_bounds=None if L is None else L.ravel().tolist(), upper_bounds=None if U is None else U.ravel().tolist())
         else:
             # bounds split over two parts; the collapsed box is the intersection
             l2 = None if L is None else L - np.array([[rnd.choice([0.0, 0.5])] for _ in range(d)])
